@@ -740,6 +740,12 @@ class Explorer(object):
 
     def _assume(self, st, c, truth, ins):
         st.decided[c] = truth
+        # a boolean that was materialised as an integer and tested again: (cond != 0) is cond
+        while c[0] == 'icmp' and c[1] in ('ne', 'eq') and c[3] == C0 and c[2][0] == 'icmp':
+            if c[1] == 'eq':
+                truth = not truth
+            c = c[2]
+            st.decided[c] = truth
         st.assume.append((c, truth, ins))
         if c[0] == 'icmp' and c[1] in ('eq', 'ne'):
             a, b = c[2], c[3]
